@@ -588,3 +588,6 @@ class LazyTextfile:
         """
         self._check_open()
         self.file_handle.write(msg)
+        # Do not rely on garbage collection to get the content to disk: in parallel
+        # runs the handlers (and their targets) are copies that nobody closes explicitly
+        self.file_handle.flush()
